@@ -2,6 +2,7 @@
 //   (valuations_unconstrained nv)   ValuationsOfClauseIterator::new_unconstrained(nv)
 //   (valuations_deprecated nv)      BddValuationIterator::new(nv)   (deprecated wrapper)
 //   (valuations_empty)              ValuationsOfClauseIterator::empty()
+//   (iter_after_end b)              the four iterators of a Bdd drained and asked again
 //   (clause_valuations_clone pv nv k)  k items, then the rest of a `clone()` of the iterator: (P first-k rest-of-clone)
 use crate::ops::*;
 use crate::sexp::S;
@@ -35,6 +36,28 @@ pub fn run(c: &[S]) -> Option<S> {
             }
             let rest: Vec<S> = it.clone().map(|p| e_valuation(&p)).collect();
             S::list("P", vec![S::list("L", first), S::list("L", rest)])
+        }
+        // every iterator of a Bdd drained, then asked three more times: (L (P count still-none) x4) for sat_valuations,
+        // sat_clauses, into_sat_valuations, into_sat_clauses
+        "iter_after_end" => {
+            fn drain<I: Iterator>(mut it: I) -> S {
+                let mut n = 0usize;
+                while it.next().is_some() {
+                    n += 1;
+                }
+                let mut ok = true;
+                for _ in 0..3 {
+                    if it.next().is_some() {
+                        ok = false;
+                    }
+                }
+                S::list("P", vec![S::int(n), S::boolean(ok)])
+            }
+            let b = d_bdd_fresh(&a[0]);
+            S::list(
+                "L",
+                vec![drain(b.sat_valuations()), drain(b.sat_clauses()), drain(b.clone().into_sat_valuations()), drain(b.clone().into_sat_clauses())],
+            )
         }
         _ => return None,
     })
